@@ -471,7 +471,7 @@ def execute_conc(case: dict) -> dict:
                     viol.append(("key-computed-twice-although-retained", {"key": k,
                                  "executions": [(r["n"], r["status"]) for r in lst]}, None))  # fmt: skip
 
-    info: dict = {}
+    info: dict = {"stuck_ticks": 600}
     try:
         run(main, config=case["cfg"], info=info)
     except Deadlock:
@@ -527,7 +527,11 @@ def all_cases(tier: str, seed: int):  # noqa: ANN201
         if i % 3 == 0:
             yield gen_s1(rng, cfgs)
         else:
-            yield gen_conc(rng, cfgs)
+            case = gen_conc(rng, cfgs)
+            if case["ttl"] is None and rng.random() < 0.15:
+                case["cfg"] = "uvloop"  # timer-free histories also run on uvloop
+
+            yield case
 
 
 def judge(case: dict, col) -> None:  # noqa: ANN001
